@@ -14,11 +14,16 @@ parent; files that mix both spellings of several parents (repeated keys / comma 
 ids and Parent values that differ only in letter case, look numeric or consist of SQL wildcard characters; the verbose
 argument of create_db / FeatureDB.update (not given, False, True, 'debug'); update() adding a third level under stored
 features; process history (imports that failed half-way earlier in the same process, with the same ids and other Parent
-links; a second create_db running inside the transform of the judged one).
+links; a second create_db running inside the transform of the judged one); the documented pragmas argument of create_db /
+FeatureDB (absent, the defaults, defaults + foreign_keys='ON', other result-neutral settings) on files with dangling Parent
+values and children before their parents; the same file written with LF, CRLF and bare CR line ends (path, from_string, gzip).
 
 Optional case fields (all replayable): "verboses" (one import per line order and value) or "verbose"; "split" (first k
 lines by create_db, the others by update); "prior" (specs of G.failing_prior, run before every judged import); "nested"
-(spec of G.nested_spec).
+(spec of G.nested_spec); "pragmas" (list of G.pragma_specs entries, one import per line order and entry), "reopen" (file
+database: judged through a FeatureDB opened anew with the same pragmas argument); "eols" (keys of G.EOLS, one import per
+line order and terminator) or "eol", "header" ('##gff-version 3' in front), "last" (False: no terminator after the last
+line); "input" = path | string | gzip.
 """
 import gzip
 import os
@@ -62,7 +67,16 @@ RULE = ("GFF3 annotation graphs: DAGs of 1-4 layers and <= 12 lines, every line 
         "start, an ID attribute with two values, a transform or an id_spec callable that raises at the k-th feature; through "
         "create_db or FeatureDB.update, into ':memory:' or a file - and/or the judged import gets an identity transform that, at "
         "a drawn feature, runs a second create_db into ':memory:' (same ids with other links, or unrelated; that inner database is "
-        "judged against ITS graph too); verbose drawn; 1 of 5 judged imports is create_db + update")
+        "judged against ITS graph too); verbose drawn; 1 of 5 judged imports is create_db + update.  'pragmas': one graph (3 of "
+        "4 redrawn until a Parent value names no line), 1-2 line orders (parents first, children first, random), imported with the "
+        "pragmas argument absent, dict(constants.default_pragmas), dict(constants.default_pragmas, foreign_keys='ON') and 1-2 "
+        "drawn dictionaries (1-2 entries of G.PRAGMA_POOL - foreign_keys, synchronous, journal_mode, cache_size, page_size, "
+        "temp_store, reverse_unordered_selects, automatic_index, case_sensitive_like, secure_delete, recursive_triggers - on top "
+        "of the defaults or alone), in a drawn sequence; ':memory:' or a file, 6 of 10 file databases judged through a new "
+        "FeatureDB(dbfn, pragmas=...); 1 of 5 as create_db + update; all relation sets must coincide and agree with the model.  "
+        "'line ends': one graph, 2 line orders, written with LF, CRLF and bare CR after every line (drawn sequence), given as a "
+        "path (2 of 4), via from_string (1 of 4) or as a gzip file (1 of 4; LF and CRLF only), 35% with a '##gff-version 3' line "
+        "in front, 25% without terminator after the last line; all relation sets must coincide and agree with the model")
 REQUIRED = ["imports", "children()/parents() calls compared with the model", "relation rows compared",
             "level-2 rows compared", "argument-composition queries compared", "iter_by_parent_childs groups compared",
             "line-order pairs with identical relation sets", "dangling Parent values (no error, no phantom)",
@@ -99,7 +113,23 @@ REQUIRED = ["imports", "children()/parents() calls compared with the model", "re
             "update: FeatureDB.update calls that added lines to a judged database",
             "update: calls with verbose='debug'", "update: calls with verbose=True", "update: calls with verbose=False",
             "update: lines of a third (or deeper) level added under existing features",
-            "update: level-2 pairs joining a feature of the create_db call with one of the update call"]
+            "update: level-2 pairs joining a feature of the create_db call with one of the update call",
+            "pragmas: imports with the pragmas argument given", "pragmas: imports with foreign_keys switched on",
+            "pragmas: judged connections that report foreign_keys = 1",
+            "pragmas: imports with foreign_keys on of a file with >= 1 dangling Parent value",
+            "pragmas: dangling Parent values imported with foreign_keys on (no error, no phantom)",
+            "pragmas: imports with foreign_keys on of a file with a child before its parent",
+            "pragmas: level-2 rows compared (foreign_keys on)",
+            "pragmas: pairs of imports (other pragmas setting) with identical relation sets",
+            "pragmas: FeatureDB objects opened anew with the pragmas argument and judged",
+            "line ends: imports of a file with CRLF line ends", "line ends: imports of a file with bare CR line ends",
+            "line ends: bare CR, given as a path", "line ends: bare CR, given via from_string",
+            "line ends: CRLF, given as a path", "line ends: CRLF, given via from_string", "line ends: CRLF, given as a gzip file",
+            "line ends: level-2 rows compared (bare CR)", "line ends: level-2 rows compared (CRLF)",
+            "line ends: pairs of imports (bare CR against LF or CRLF) with identical relation sets",
+            "line ends: pairs of imports (other line terminator) with identical relation sets",
+            "line ends: imports of a file with a '##gff-version 3' line in front",
+            "line ends: imports of a file whose last line has no terminator"]
 REQUIRED_CLASSES = ["ids=word", "ids=hostile", "Parent=comma list", "Parent=repeated keys", "order=children first",
                     "graph: multi-parent", "graph: level-2 pairs", "graph: dangling Parent", "graph: shortcut (level 1 and 2)",
                     "graph: two level-2 paths to one feature", "graph: wide (> 1000 direct children)",
@@ -112,7 +142,13 @@ REQUIRED_CLASSES = ["ids=word", "ids=hostile", "Parent=comma list", "Parent=repe
                     "history: after a failed import of a file with the same ids and other Parent links",
                     "history: after a failed import of an unrelated file",
                     "history: a transform runs a second create_db (two creators alive at once)",
-                    "history: judged import = create_db + FeatureDB.update"]
+                    "history: judged import = create_db + FeatureDB.update",
+                    "pragmas: file with a dangling Parent value", "pragmas: a line order with a child before its parent",
+                    "pragmas: dangling Parent value and a child before its parent in one file",
+                    "pragmas: judged through FeatureDB(dbfn, pragmas=...)", "pragmas: dictionary without the library's defaults",
+                    "pragma: foreign_keys", "pragma: synchronous", "pragma: journal_mode", "pragma: cache_size",
+                    "line ends: one file under LF, CRLF and bare CR", "line ends: given as a path",
+                    "line ends: given via from_string", "line ends: given as a gzip file (LF and CRLF only)"]
 ASSUMPTIONS = [
     "the reference model gvmon/models/hierarchy.py is a faithful reading of the statement: relatives are stored features "
     "only; level 2 = composition of two Parent edges; level None = union",
@@ -143,6 +179,17 @@ ASSUMPTIONS = [
     "that does not raise is counted and ignored)",
     "an identity transform (returns the feature it was given) does not change the input; a create_db call made from inside it "
     "for another ':memory:' database is an independent import: both databases are the Parent graphs of their own files",
+    "the documented pragmas argument of create_db / FeatureDB configures the sqlite connection (durability, caching, page "
+    "size, enforcement of declared constraints, order of unordered results); it is no input of the Parent graph: under every "
+    "dictionary drawn from G.PRAGMA_POOL (with or without constants.default_pragmas; foreign_keys='ON' included) a file imports "
+    "without error - dangling Parent values and children before parents included - and the relations are those of the model and "
+    "of the import without the argument.  Pragmas that change what a connection may do or return (query_only, locking_mode, "
+    "count_changes, defer_foreign_keys, journal_mode=OFF/WAL, ...) are not drawn; FeatureDB.update is called without the argument",
+    "a line ends with LF, CR LF or a bare CR (Unix, DOS, classic Mac OS text files); the terminator is not part of the line: "
+    "the same lines under each of the three conventions, given as a path or via from_string, are the same annotation.  A "
+    "'##gff-version 3' line in front and a missing terminator after the last line change nothing either.  Bare CR inside a gzip "
+    "file is NOT generated: the unchanged tree splits gzip input on LF only (a known limitation outside this statement: the "
+    "whole file is read as one line); gzip input is generated with LF and CRLF",
     "interleaved generators: the database is not modified while they are alive; each generator is compared as a multiset "
     "with the same call consumed alone (the statement fixes no order without order_by) and with the model",
 ]
@@ -1225,6 +1272,12 @@ MANIFEST = {
             "same process (duplicate ID, malformed line, raising transform / id_spec; mostly the SAME ids with other Parent links) or "
             "with a second create_db running inside its transform - the judged database (and the inner one) must be exactly the "
             "Parent graph of its own file, and the pairs the failed import had read are counted as confirmed absent. "
+            "Two more classes vary the configuration and the byte form of the file: every file (most with a dangling Parent value, "
+            "in orders with children before parents) is imported with the documented pragmas argument absent, equal to the "
+            "defaults, with foreign_keys='ON' added and with other result-neutral settings, on ':memory:' and file databases, the "
+            "latter also judged through a new FeatureDB(dbfn, pragmas=...); and every file is written with LF, CRLF and bare CR "
+            "line ends and given as a path, via from_string or gzip-compressed (LF/CRLF). All imports of one file must give the "
+            "model's relations and identical relation sets. "
             "Held = no executed import disagreed.",
     "note": "Trusted: gvmon/models/hierarchy.py. The hostile-id class (blanks at the ends, U+0085/U+00A0, escaped TAB/LF) is "
             "kept apart: its violations are prefixed 'hostile-id class:'. update() is exercised only as 'more GFF3 lines with new ids'; "
